@@ -509,7 +509,11 @@ pub fn gen_world(seed: u64) -> C12World {
     for (p, d) in &em.files {
         tree.push((p.clone(), Entry::File(d.clone())));
     }
-    let env = em.env.clone();
+    let mut env = em.env.clone();
+    if em.rng.chance(1, 8) {
+        // coloured diagnostics (NO_COLOR unset): stdout, files and the exit status must not care
+        env.retain(|(k, _)| k != "NO_COLOR");
+    }
     C12World { world: World { tree, argv, env, stdin, stdout: StdoutKind::File }, value, mode, expect, o_before, program: body }
 }
 
